@@ -129,7 +129,7 @@ class EffectsParser:
         :param domain_constants: the constants that exist in the domain.
         """
         self.logger.debug("Parsing conditional effect node.")
-        if len(conditional_effect_ast[1:]) != 2:
+        if conditional_effect_ast[0] != "when" or len(conditional_effect_ast[1:]) != 2:
             raise SyntaxError(
                 f"Conditional effect scheme does not match schema! {conditional_effect_ast}"
             )
